@@ -634,8 +634,10 @@ pub fn run(args: &[String]) -> i32 {
     let mut max_steps_seen = 0u64;
     let mut max_tasks = 0u32;
     let mut samples = Vec::new();
+    let mut max_run_wall_ms = 0u64;
     for l in &all_lines {
         let o = &l.outcome;
+        max_run_wall_ms = max_run_wall_ms.max(l.wall_us / 1000);
         if o.class == "skipped-reference-panicked" {
             skipped += 1;
             continue;
@@ -720,6 +722,8 @@ pub fn run(args: &[String]) -> i32 {
             "scheduler_steps": steps,
             "simulated_time": "not applicable: the code under test has no timers; progress is measured in scheduler steps (see scheduler_steps, max_steps_in_one_execution)",
             "max_steps_in_one_execution": max_steps_seen,
+            "slowest_run_wall_ms": max_run_wall_ms,
+            "no_progress_watchdog_s": STALL_SECS,
             "max_tasks_in_one_execution": max_tasks,
             "faults_injected": {
                 "context_switches": switches,
